@@ -15,8 +15,10 @@ type Lit struct {
 	Neg bool
 }
 
-// Conj is a conjunction of literals keyed by value.
-type Conj map[ssa.Value]bool // value -> Neg
+// Conj is a conjunction of literals keyed by atom key (see Reach.KeyOf): two SSA values that
+// denote the same stable expression (e.g. two loads of opts.Rule compared with the same constant)
+// share a key and are therefore the same propositional atom.
+type Conj map[string]Lit
 
 // DNF is a disjunction of conjunctions. An empty DNF is false; a DNF containing an empty Conj is true.
 type DNF []Conj
@@ -27,7 +29,18 @@ type Reach struct {
 	blocks  map[*ssa.BasicBlock]DNF
 	back    map[[2]int]bool
 	blocked map[*ssa.BasicBlock]bool
-	Err     error
+	// KeyOf names the propositional atom of a condition value; nil = one atom per SSA value.
+	KeyOf func(ssa.Value) string
+	Err   error
+}
+
+func (r *Reach) key(v ssa.Value) string {
+	if r.KeyOf != nil {
+		if k := r.KeyOf(v); k != "" {
+			return k
+		}
+	}
+	return fmt.Sprintf("%p", v)
 }
 
 const maxConj = 2048
@@ -42,32 +55,19 @@ func (c Conj) clone() Conj {
 	return n
 }
 
-func (c Conj) key() string {
-	var parts []string
-	for v, neg := range c {
-		s := fmt.Sprintf("%p", v)
-		if neg {
-			s = "!" + s
-		}
-		parts = append(parts, s)
-	}
-	sort.Strings(parts)
-	return strings.Join(parts, "&")
-}
-
-// and adds literal l to every conjunct; contradictory conjuncts are dropped.
-func (d DNF) and(l Lit) DNF {
+// and adds literal l (atom key k) to every conjunct; contradictory conjuncts are dropped.
+func (d DNF) and(k string, l Lit) DNF {
 	var out DNF
 	for _, c := range d {
-		if neg, ok := c[l.V]; ok {
-			if neg != l.Neg {
+		if old, ok := c[k]; ok {
+			if old.Neg != l.Neg {
 				continue
 			}
 			out = append(out, c)
 			continue
 		}
 		n := c.clone()
-		n[l.V] = l.Neg
+		n[k] = l
 		out = append(out, n)
 	}
 	return out
@@ -78,7 +78,7 @@ func subset(a, b Conj) bool { // a ⊆ b
 		return false
 	}
 	for k, v := range a {
-		if w, ok := b[k]; !ok || w != v {
+		if w, ok := b[k]; !ok || w.Neg != v.Neg {
 			return false
 		}
 	}
@@ -116,7 +116,7 @@ func simplify(d DNF) DNF {
 				if len(d[i]) != len(d[j]) {
 					continue
 				}
-				var diff ssa.Value
+				var diff string
 				nd := 0
 				ok := true
 				for k, v := range d[i] {
@@ -125,7 +125,7 @@ func simplify(d DNF) DNF {
 						ok = false
 						break
 					}
-					if w != v {
+					if w.Neg != v.Neg {
 						nd++
 						diff = k
 					}
@@ -156,7 +156,12 @@ func NewReach(fn *ssa.Function) *Reach { return NewReachAvoid(fn, nil) }
 // blocks (flow entering a blocked block stops there): reach(B) then describes the ways of getting
 // to B without passing through a blocked block first.
 func NewReachAvoid(fn *ssa.Function, blocked map[*ssa.BasicBlock]bool) *Reach {
-	r := &Reach{Fn: fn, blocks: map[*ssa.BasicBlock]DNF{}, back: map[[2]int]bool{}, blocked: blocked}
+	return NewReachKeyed(fn, blocked, nil)
+}
+
+// NewReachKeyed is NewReachAvoid with an atom-naming function.
+func NewReachKeyed(fn *ssa.Function, blocked map[*ssa.BasicBlock]bool, keyOf func(ssa.Value) string) *Reach {
+	r := &Reach{Fn: fn, blocks: map[*ssa.BasicBlock]DNF{}, back: map[[2]int]bool{}, blocked: blocked, KeyOf: keyOf}
 	if len(fn.Blocks) == 0 {
 		return r
 	}
@@ -255,7 +260,7 @@ func (r *Reach) andCond(p *ssa.BasicBlock, base DNF, cond ssa.Value, neg bool, d
 		}
 		return acc
 	}
-	return base.and(Lit{V: cond, Neg: neg})
+	return base.and(r.key(cond), Lit{V: cond, Neg: neg})
 }
 
 // At returns the reaching condition of the block (nil = unreachable).
@@ -270,9 +275,9 @@ func (d DNF) Implies(ms ...LitMatcher) bool {
 	for _, c := range d {
 		ok := false
 	lits:
-		for v, neg := range c {
+		for _, l := range c {
 			for _, m := range ms {
-				if m(Lit{v, neg}) {
+				if m(l) {
 					ok = true
 					break lits
 				}
@@ -293,9 +298,9 @@ func (d DNF) Describe(o *Origins) string {
 	var cs []string
 	for _, c := range d {
 		var ls []string
-		for v, neg := range c {
-			s := o.Of(v).String()
-			if neg {
+		for _, l := range c {
+			s := o.Of(l.V).String()
+			if l.Neg {
 				s = "¬" + s
 			}
 			ls = append(ls, s)
@@ -319,7 +324,7 @@ func And(a, b DNF) DNF {
 		for _, y := range b {
 			n := x.clone()
 			for k, v := range y {
-				if w, ok := n[k]; ok && w != v {
+				if w, ok := n[k]; ok && w.Neg != v.Neg {
 					continue next
 				}
 				n[k] = v
